@@ -486,7 +486,12 @@ fn gen_cover<G: GenSc>(rng: &mut Rng, mode: Mode, sig: &Sig, n: usize, form: &'s
         let mut g = Gen::<G> { rng: Rng(rng.next()), mode, regs: vec![Val::Nil; NREG], init: vec![Val::Nil; NREG], calls: Vec::new(),
                                fsafe: true, prim: false, written: vec![false; NREG] };
         if !g.step_forced(sig, Some(n), Some(form)) { continue; }
-        let scs = scalars_for(mode, g.fsafe, g.prim);
+        let mut scs = scalars_for(mode, g.fsafe, g.prim);
+        // single low-degree calls on small rationals have results with denominators well below the f32 snap limit (256)
+        // (f32 results are snapped with radius 4e-6*max(1,|x|) to denominators <= 256: unambiguous only for single
+        //  sums, products or quotients of small rationals, not for sums of products)
+        let f32_ok = sig.class <= 1 || ["s_div", "div_s", "div_ew", "s_mul", "mul_s", "mul_ew"].contains(&sig.op);
+        if mode == Mode::Field && g.fsafe && f32_ok && !scs.contains(&"f32") { scs.push("f32"); }
         if scs.is_empty() { return None; }
         let regs: Vec<String> = g.init.iter().map(|r| r.enc()).collect();
         let scj: Vec<String> = scs.iter().map(|s| format!("\"{}\"", s)).collect();
